@@ -168,6 +168,32 @@ func (st *story) served() []kref {
 
 var badKinds = []string{"w", "e", "f", "p", "x"}
 
+// claims returns RRSIGs that carry the key tag / algorithm / signer name of
+// each given key but do NOT validly cover the served RRset (wrong private key,
+// expired, not yet valid, made over other data, bytes flipped). Every fetched
+// set is thus (DNSKEYs, list of RRSIGs each = (claimed key, valid | one of the
+// invalid kinds)): `signers` are the valid ones, `bad=` the rest.
+func (st *story) claims(keys []kref, p, q int) []string {
+	var out []string
+	for _, k := range keys {
+		if st.r.Chance(p, q) {
+			out = append(out, k.String()+":"+vlib.Pick(st.r, badKinds))
+		}
+	}
+	return out
+}
+
+// others: the active signers except material id.
+func without(ks []kref, id int) []kref {
+	var out []kref
+	for _, k := range ks {
+		if k.id != id {
+			out = append(out, k)
+		}
+	}
+	return out
+}
+
 // honest serves the zone as it is: signed by every active KSK (or a
 // non-empty part of them: co-signing) and self-signed by every revoked key.
 func (st *story) honest(faultP, crashP int) {
@@ -247,7 +273,7 @@ func (st *story) revokeKey() {
 func (st *story) irregular() {
 	r := st.r
 	act := st.activeSigners()
-	switch r.Intn(9) {
+	switch r.Intn(11) {
 	case 0: // attacker adds its own key and signs with it only
 		x := mk(900+r.Intn(40), 257)
 		set := append(st.served(), x)
@@ -288,7 +314,16 @@ func (st *story) irregular() {
 		if r.Chance(1, 4) {
 			signers = nil // revoke bit without self-signature
 		}
-		st.run(shuffled(r, set), signers, nil, st.faults(25), st.crash(10))
+		// besides the one valid self-signature, RRSIGs that merely CLAIM the tag of
+		// every other trusted anchor (and sometimes of the victim's unrevoked form)
+		var bad []string
+		if r.Chance(3, 4) {
+			bad = st.claims(without(act, victim.id), 4, 5)
+			if r.Chance(1, 3) {
+				bad = append(bad, victim.String()+":"+vlib.Pick(r, badKinds))
+			}
+		}
+		st.run(shuffled(r, set), signers, bad, st.faults(25), st.crash(10))
 		if r.Chance(2, 3) {
 			// the zone really did revoke it
 			if i := st.has(victim.id); i >= 0 {
@@ -354,8 +389,32 @@ func (st *story) irregular() {
 		m := st.freshMat()
 		set := append(st.served(), mk(m, 385))
 		st.run(set, append(append([]kref(nil), act...), mk(m, 385)), nil, st.faults(10), "-")
+	case 8: // a valid signature by a key that is published but not (yet) trusted, plus
+		// invalid RRSIGs claiming the tags of the trusted anchors
+		var untrusted []kref
+		for _, k := range st.zone {
+			if !k.revoked() && !hasKey(st.cfg, k.id, k.flags) {
+				untrusted = append(untrusted, k)
+			}
+		}
+		set := st.served()
+		if len(untrusted) == 0 {
+			x := mk(st.freshMat(), 257)
+			untrusted = append(untrusted, x)
+			set = append(set, x)
+		}
+		set = append(set, mk(900+r.Intn(40), 257)) // and a key it would like to introduce
+		st.run(shuffled(r, set), []kref{vlib.Pick(r, untrusted)}, st.claims(st.cfg, 9, 10), st.faults(10), st.crash(5))
+	case 9: // nothing verifies: every RRSIG only claims a trusted tag
+		claimed := append(append([]kref(nil), st.cfg...), act...)
+		bad := st.claims(claimed, 9, 10)
+		if len(bad) == 0 && len(claimed) > 0 {
+			bad = []string{claimed[0].String() + ":x"}
+		}
+		set := append(st.served(), mk(900+r.Intn(40), 257))
+		st.run(shuffled(r, set), nil, bad, st.faults(10), "-")
 	default: // only the ZSK signs
-		st.run(st.served(), []kref{st.zsk}, nil, "-", "-")
+		st.run(st.served(), []kref{st.zsk}, st.claims(act, 1, 2), "-", "-")
 	}
 }
 
@@ -581,6 +640,40 @@ func storyCollision(st *story) {
 	}
 }
 
+// storyForgedClaims: what VERIFIES decides, not which key tags the RRSIGs carry.
+func storyForgedClaims(st *story) {
+	r := st.r
+	k1, k2, n, p := st.mats[0], st.mats[1], st.mats[2], st.mats[3]
+	st.start([]kref{mk(k1, 257), mk(k2, 257)})
+	st.honest(0, 0)
+	kind := func() string { return vlib.Pick(r, badKinds) }
+	switch r.Intn(3) {
+	case 0:
+		// the holder of K2's key serves {K2+REVOKE, N}: the only RRSIG that verifies is
+		// K2's self-signature over the revoked form; another one merely claims K1's tag
+		st.run([]kref{mk(k2, 385), mk(n, 257)}, []kref{mk(k2, 385)}, []string{mk(k1, 257).String() + ":" + kind()}, "-", "-")
+		st.tick(31 * day)
+		st.run([]kref{mk(k2, 385), mk(n, 257)}, []kref{mk(k2, 385), mk(n, 257)}, []string{mk(k1, 257).String() + ":" + kind()}, "-", "-")
+		st.zone = []kref{mk(k1, 257)}
+		st.honest(0, 0)
+	case 1:
+		// P is pending; a set validly signed by P alone, with invalid RRSIGs claiming K1 and K2
+		st.zone = append(st.zone, mk(p, 257))
+		st.honest(0, 0)
+		st.tick(10 * day)
+		st.run([]kref{mk(k1, 257), mk(p, 257), mk(n, 257)}, []kref{mk(p, 257)},
+			[]string{mk(k1, 257).String() + ":" + kind(), mk(k2, 257).String() + ":" + kind()}, "-", "-")
+		st.tick(21 * day)
+		st.honest(0, 0)
+	default:
+		// nothing verifies; every RRSIG claims a trusted tag; the set drops K2 and adds N
+		st.run([]kref{mk(k1, 257), mk(n, 257)}, nil,
+			[]string{mk(k1, 257).String() + ":" + kind(), mk(k2, 257).String() + ":" + kind(), mk(k1, 257).String() + ":" + kind()}, "-", "-")
+		st.honest(0, 0)
+	}
+	st.honest(5, 5)
+}
+
 func storyRandom(st *story, steps int) {
 	r := st.r
 	n := 1 + r.Intn(3)
@@ -650,7 +743,7 @@ func gen(r0 *vlib.R, n int, tier string, emit func(string)) {
 	findSpecials()
 	count := 0
 	wrap := func(s string) { emit(s); count++ }
-	scripted := []func(*story){storyRollover, storyMissing, storyLegacy, storyCollision}
+	scripted := []func(*story){storyRollover, storyMissing, storyLegacy, storyCollision, storyForgedClaims, storyForgedClaims, storyForgedClaims}
 	for _, f := range scripted {
 		f(newStory(r, wrap))
 	}
